@@ -42,7 +42,43 @@ def _unpicklable(what):
         class Local(object):
             pass
         return Local()
+    if what == 'closed_conn':
+        # a real-world value whose pickling fails with OSError, not with a
+        # pickling error: a connection that was closed already
+        from billiard import Pipe
+        a, b = Pipe()
+        a.close()
+        b.close()
+        return a
+    if what.startswith('reduce:'):
+        # any exception class at all may come out of __reduce__
+        return ReduceRaises(what.split(':', 1)[1])
     raise RuntimeError('harness: unknown unpicklable %r' % (what,))
+
+
+REDUCE_EXC = {
+    'OSError': lambda: OSError(9, 'Bad file descriptor'),
+    'BrokenPipeError': lambda: BrokenPipeError(32, 'Broken pipe'),
+    'EOFError': lambda: EOFError('ran out of input'),
+    'ConnectionResetError': lambda: ConnectionResetError(104, 'reset'),
+    'FileNotFoundError': lambda: FileNotFoundError(2, 'no such file'),
+    'MemoryError': lambda: MemoryError(),
+    'RecursionError': lambda: RecursionError('too deep'),
+    'KeyError': lambda: KeyError('k'),
+    'StopIteration': lambda: StopIteration(),
+    'AssertionError': lambda: AssertionError('a'),
+    'UnicodeError': lambda: UnicodeEncodeError('ascii', 'x', 0, 1, 'bad'),
+}
+UNPICK_WHATS = (['lambda', 'gen', 'lock', 'closed_conn'] +
+                ['reduce:' + k for k in sorted(REDUCE_EXC)])
+
+
+class ReduceRaises(object):
+    def __init__(self, name):
+        self.name = name
+
+    def __reduce__(self):
+        raise REDUCE_EXC[self.name]()
 
 
 EXC = {'KeyError': KeyError, 'ValueError': ValueError, 'TaskError': TaskError,
